@@ -7,6 +7,10 @@ Jobs:
             per route: the polygon data as stored, is_in_window for Cartesian and RA/Dec points,
             is_in_polygon per polygon
   setuse  : set_use_caps(polygon, index_list, ...)
+  types   : the same numbers in other dtypes / memory layouts / containers
+  history : many calls on the same polygon objects and file paths
+  large   : one call with 6.5e4 .. 2e6 points that are copies of a few points (round 6)
+  reuse   : ONE coordinate array refilled in place between calls; polygons' own arrays edited in place (round 6)
 All floats travel as JSON numbers (Python repr round-trips doubles exactly).
 """
 import json
@@ -208,6 +212,36 @@ def observe(polys, j):
     return out
 
 
+def _pickled(kw):
+    import pickle
+    return pickle.loads(pickle.dumps(kw, protocol=pickle.HIGHEST_PROTOCOL))
+
+
+def _deepcopied(kw):
+    import copy
+    return copy.deepcopy(kw)
+
+
+def _shallow(kw):
+    import copy
+    return mng.PolygonList([copy.copy(p) for p in kw])
+
+
+def _relisted(kw):
+    # a plain list slice / concatenation of the PolygonList (loses the subclass, keeps the polygon objects)
+    h = len(kw) // 2
+    return kw[:h] + kw[h:]
+
+
+def _copy_ctor(kw):
+    return mng.PolygonList([mng.ManglePolygon(p) for p in kw])
+
+
+# polygon lists DERIVED from the keyword-constructed one: they must answer exactly as the original
+DERIVED = {'pickle': _pickled, 'deepcopy': _deepcopied, 'copy.copy': _shallow, 'list_slices': _relisted,
+           'copy_ctor': _copy_ctor}
+
+
 def job_window(j):
     polys = j['polys']
     out = {'routes': {}}
@@ -261,6 +295,15 @@ def job_window(j):
                     got = mng.PolygonList()
                     for p in kw:
                         got.append(p.copy())
+                elif route in DERIVED:
+                    got = DERIVED[route](kw)
+                elif route == 'fits_slice':
+                    # a slice of the raw FITS table (a new FITS_polygon object on the same records)
+                    path = os.path.join(d, 'polys-array.fits')
+                    if not os.path.exists(path):
+                        write_fits(path, polys, j['pad'], 'array')
+                    whole = mng.read_fits_polygons(path)
+                    got = whole[0:len(whole)]
                 elif route in ('ply', 'ply_assign'):
                     path = os.path.join(d, 'polys.ply')
                     if not os.path.exists(path):
@@ -381,6 +424,25 @@ def store(a, how):
         return a.astype(np.int64)
     if how == 'fo':
         return np.asfortranarray(a)
+    if how == 'tv':
+        # (3, N) C-contiguous array handed over as its transpose (how catalogues of x, y, z columns arrive)
+        if a.ndim == 1:
+            return np.ascontiguousarray(a.reshape(1, -1)).T[:, 0]
+        return np.ascontiguousarray(a.T).T
+    if how == 'rv':
+        # reversed-stride view: the numbers were stored back to front
+        return np.ascontiguousarray(a[::-1])[::-1]
+    if how == 'cr':
+        # negative column stride (2-D) / every third element of a longer vector (1-D)
+        if a.ndim == 1:
+            w = np.full((a.shape[0] * 3,), -1.75)
+            w[::3] = a
+            return w[::3]
+        return np.ascontiguousarray(a[::-1, ::-1])[::-1, ::-1]
+    if how == 'list':
+        return a.tolist()
+    if how == 'tuple':
+        return tuple(tuple(r) if isinstance(r, list) else r for r in a.tolist())
     if how == 'nc':
         if a.ndim == 1:
             w = np.full((a.shape[0] * 2 + 1,), 7.25)
@@ -402,6 +464,10 @@ def job_types(j):
     rd64 = np.array(j['radec'], dtype=np.float64).reshape(-1, 2)
     out['radec_xyz'] = rows3(mng.angles_to_x(rd64, latitude=True))
     ncaps = int(j['ncaps'])
+    if j.get('ncaps_form') == 'npint':
+        ncaps = np.int64(ncaps)
+    elif j.get('ncaps_form') == 'npint32':
+        ncaps = np.int32(ncaps)
     for name, (hx, hcm, hp) in j['variants'].items():
         v = {'problems': []}
         try:
@@ -526,6 +592,202 @@ def job_history(j):
     return {'history': out}
 
 
+# ---------------------------------------------------------------- round 6: sizes beyond small (class D)
+
+def expand_index(m, n, pattern, seed):
+    """Which of the m small points sits at each of the n positions of the large input."""
+    if pattern == 'tile':
+        return np.arange(n) % m
+    g = np.random.default_rng(seed)
+    idx = g.integers(0, m, n)
+    if pattern == 'runs':          # long runs of one point: whole internal blocks consist of a single point
+        idx = np.sort(idx)
+    return idx
+
+
+def summarise(ans, idx, m, n):
+    """A length-n answer vector over positions that hold only m distinct points -> the answer at the first and at the
+    last occurrence of each point, and whether every position got the answer of its point's first occurrence."""
+    if isinstance(ans, dict):
+        return ans
+    a = np.asarray(ans)
+    if a.shape != (n,):
+        return {'err': 'BadShape', 'msg': 'result has shape %s for %d points' % (a.shape, n)}
+    out = {'dtype': str(a.dtype)}
+    a = a.astype(np.int64)
+    u, fi = np.unique(idx, return_index=True)
+    u2, li = np.unique(idx[::-1], return_index=True)
+    first = np.full((m,), -9, dtype=np.int64)
+    last = np.full((m,), -9, dtype=np.int64)
+    first[u] = a[fi]
+    last[u2] = a[n - 1 - li]
+    out['present'] = [int(v) for v in u]
+    out['first'] = [int(v) for v in first]
+    out['last'] = [int(v) for v in last]
+    bad = np.nonzero(a != first[idx])[0]
+    out['n_nonuniform'] = int(len(bad))
+    if len(bad):
+        b = int(bad[0])
+        out['nonuniform'] = {'position': b, 'point': int(idx[b]), 'answer': int(a[b]), 'first_position': int(fi[list(u).index(idx[b])]),
+                             'answer_at_first_position': int(first[idx[b]]), 'last_bad_position': int(bad[-1])}
+    return out
+
+
+def job_large(j):
+    """One call with n points (n beyond any internal block size), the points being copies of m small points whose
+    answers the model computes.  Reported per entry point: answers at first/last occurrence of each small point,
+    uniformity, and agreement with the same input passed as two separate calls."""
+    n, ncaps = int(j['n']), int(j['ncaps'])
+    small = {'cart': np.array(j['pts'], dtype=np.float64).reshape(-1, 3), 'radec': np.array(j['radec'], dtype=np.float64).reshape(-1, 2)}
+    m = small['cart'].shape[0]
+    idx = expand_index(m, n, j['pattern'], int(j['seed']))
+    polys = mng.PolygonList()
+    for p in j['polys']:
+        polys.append(mng.ManglePolygon(x=np.array(p['x'], dtype=np.float64).reshape(-1, 3), cm=np.array(p['cm'], dtype=np.float64),
+                                       use_caps=p['use_caps']))
+    h = int(j['split'])
+    out = {'polys': describe(polys), 'm': m}
+    for form in ('cart', 'radec'):
+        big = np.ascontiguousarray(small[form][idx])
+        o = {}
+
+        def both(fn, pick=lambda r: r):
+            try:
+                whole = pick(fn(big))
+            except Exception as e:  # noqa: BLE001
+                return err(e), err(e), None
+            try:
+                halves = np.concatenate([pick(fn(big[:h])), pick(fn(big[h:]))])
+            except Exception as e:  # noqa: BLE001
+                return whole, err(e), None
+            w = np.asarray(whole)
+            same = None
+            if w.shape == halves.shape:
+                d = np.nonzero(w != halves)[0]
+                same = {'n_differ': int(len(d))}
+                if len(d):
+                    same.update({'position': int(d[0]), 'point': int(idx[d[0]]), 'whole': int(w[d[0]]), 'split': int(halves[d[0]])})
+            return whole, halves, same
+        before = big.tobytes() if n <= (1 << 20) else None
+        w, hv, same = both(lambda P: mng.is_in_window(polys, P, ncaps=ncaps) if ncaps else mng.is_in_window(polys, P), lambda r: r[1])
+        o['window'] = {'whole': summarise(w, idx, m, n), 'split': summarise(hv, idx, m, n), 'same': same}
+        try:
+            fl_, ix_ = mng.is_in_window(polys, big, ncaps=ncaps)
+            o['window']['flag_ok'] = bool(((ix_ >= 0) == fl_).all()) and str(fl_.dtype) == 'bool' and fl_.shape == (n,)
+        except Exception as e:  # noqa: BLE001
+            o['window']['flag_ok'] = err(e)
+        o['inpoly'] = []
+        for k in j['inpoly']:
+            w, hv, same = both(lambda P: mng.is_in_polygon(polys[k], P, ncaps=ncaps))
+            o['inpoly'].append({'k': k, 'whole': summarise(w, idx, m, n), 'split': summarise(hv, idx, m, n), 'same': same})
+        c = j.get('cap')
+        if c is not None:
+            x, cm = np.array(c['x'], dtype=np.float64), float(c['cm'])
+            w, hv, same = both(lambda P: mng.is_in_cap(x, cm, P))
+            o['cap'] = {'whole': summarise(w, idx, m, n), 'split': summarise(hv, idx, m, n), 'same': same}
+        if before is not None and big.tobytes() != before:
+            o['modified'] = True
+        out[form] = o
+    return out
+
+
+# ---------------------------------------------------------------- round 6: the same array object, refilled in place (class A)
+
+NCOL = {'radec': 2, 'cart': 3}
+
+
+def _refill(buf, fill, sets):
+    how = fill['how']
+    if how == 'assign':
+        buf[:] = np.array(sets[fill['set']], dtype=np.float64).reshape(buf.shape)
+    elif how == 'assign_rows':        # row by row, as a Monte-Carlo loop fills its buffer
+        src = np.array(sets[fill['set']], dtype=np.float64).reshape(buf.shape)
+        for i in range(buf.shape[0]):
+            buf[i, :] = src[i, :]
+    elif how == 'shift':              # RA += d
+        buf[:, 0] += fill['d']
+    elif how == 'flipdec':
+        buf[:, 1] *= -1.0
+    elif how == 'negate':             # Cartesian: antipodes
+        buf *= -1.0
+    elif how == 'roll':
+        buf[:] = np.roll(buf, 1, axis=0)
+    elif how == 'swapcols':
+        buf[:, [0, 1]] = buf[:, [1, 0]]
+    elif how == 'out':                # ufunc writing into the same memory
+        np.multiply(np.array(sets[fill['set']], dtype=np.float64).reshape(buf.shape), 1.0, out=buf)
+    else:
+        raise ValueError('unknown refill ' + how)
+
+
+def job_reuse(j):
+    """A sequence of calls in ONE process in which the caller keeps ONE coordinate array (per input form) and refills
+    it in place between calls, alternates two arrays of the same shape, passes new views of the same memory, and edits
+    the polygons' own x / cm arrays in place.  Every call reports the contents it was given."""
+    polys = mng.PolygonList()
+    for p in j['polys']:
+        polys.append(mng.ManglePolygon(x=np.array(p['x'], dtype=np.float64).reshape(-1, 3), cm=np.array(p['cm'], dtype=np.float64),
+                                       use_caps=p['use_caps']))
+    sets = {'radec': j['radec_sets'], 'cart': j['cart_sets']}
+    bufs = {}
+    for form in ('radec', 'cart'):
+        for name in ('A', 'B'):
+            bufs[form + name] = np.array(sets[form][0 if name == 'A' else 1], dtype=np.float64).reshape(-1, NCOL[form])
+    out = []
+    for st in j['steps']:
+        rec = {}
+        try:
+            if 'edit' in st:
+                q = polys[st['k']]
+                e = st['edit']
+                if e == 'cm_neg':
+                    q.cm[st['c']] *= -1.0
+                elif e == 'cm_set':
+                    q.cm[st['c']] = st['v']
+                elif e == 'x_set':
+                    q.x[st['c'], :] = np.array(st['v'], dtype=np.float64)
+                elif e == 'use_set':
+                    q.use_caps = int(st['v'])
+                else:
+                    raise ValueError('unknown edit ' + e)
+                rec['polys'] = describe(polys)
+                rec['res'] = None
+                out.append(rec)
+                continue
+            form = st['form']
+            buf = bufs[form + st['buf']]
+            if st.get('fill'):
+                _refill(buf, st['fill'], sets[form])
+            arg = buf[:] if st.get('view') else buf
+            rec['content'] = [[float(v) for v in r] for r in buf]
+            rec['polys'] = describe(polys)
+            call = st['call']
+            ncaps = int(st.get('ncaps', 0))
+            before = buf.tobytes()
+            if call in ('cap', 'dist'):
+                q = polys[st['k']]
+                x, cm = q.x[st['c'], :].copy(), float(q.cm[st['c']])
+                if call == 'cap':
+                    rec['res'] = [bool(b) for b in mng.is_in_cap(x, cm, arg)]
+                else:
+                    dd = mng.cap_distance(x, cm, arg)
+                    rec['res'] = [bool(b) for b in (dd >= 0.0)]
+                    rec['nan'] = [bool(b) for b in np.isnan(dd)]
+            elif call == 'poly':
+                rec['res'] = [bool(b) for b in mng.is_in_polygon(polys[st['k']], arg, ncaps=ncaps)]
+            elif call == 'window':
+                fl_, ix_ = mng.is_in_window(polys, arg, ncaps=ncaps)
+                rec['res'] = [int(v) for v in ix_]
+                rec['flag_ok'] = [bool(v) for v in fl_] == [int(v) >= 0 for v in ix_]
+            else:
+                raise ValueError('unknown call ' + call)
+            if buf.tobytes() != before:
+                rec['modified'] = True
+        except Exception as e:  # noqa: BLE001
+            rec['res'] = err(e)
+        out.append(rec)
+    return {'reuse': out}
+
 
 def job_setuse(j):
     p = j['poly']
@@ -561,6 +823,10 @@ def main():
                 res.append(job_types(j))
             elif j['f'] == 'history':
                 res.append(job_history(j))
+            elif j['f'] == 'large':
+                res.append(job_large(j))
+            elif j['f'] == 'reuse':
+                res.append(job_reuse(j))
             else:
                 res.append({'err': 'BadJob'})
         except Exception as e:  # noqa: BLE001
